@@ -77,7 +77,9 @@ RegFile(c, a, b) ==
        ELSE IF c.setupnames # c.declared THEN "SetupFieldOrder"
        ELSE IF \E k \in 1..ns : got[k] # exp[k][2] THEN "StreamerFieldValues"
        ELSE IF \E k \in DOMAIN tail : \/ (tail[k].mode = "eq" /\ got[ns + k] # tail[k].v)
-                                      \/ (tail[k].mode = "ge" /\ got[ns + k] < tail[k].v) THEN "KernelFieldValues"
+                                      \/ (tail[k].mode = "ge" /\ got[ns + k] < tail[k].v)
+            THEN "KernelFieldValues:" \o tail[CHOOSE k \in DOMAIN tail : \/ (tail[k].mode = "eq" /\ got[ns + k] # tail[k].v)
+                                                                         \/ (tail[k].mode = "ge" /\ got[ns + k] < tail[k].v)].name
        ELSE IF c.knm > 0 /\ got[ns + 1] * got[ns + 2] * got[ns + 3] # c.knm THEN "LoopCountsVsStreamSteps"
        ELSE "ok"
 
